@@ -165,6 +165,34 @@ fn op_build(_w: &World) -> Result<(), Violation> {
     }
 }
 
+/// An element whose own type uses every layer the packed form has (a 33-level nested empty array): offered to a
+/// container of a shallow element type it must never be accepted (an error or an unwind both count as refusal).
+fn op_build_deep_element() -> Result<(), Violation> {
+    let mut deep: LhsValue<'static> = LhsValue::Array(Array::new(Type::Bytes));
+    for _ in 0..32 {
+        let ty = deep.get_type();
+        let Ok(t) = catch_unwind(AssertUnwindSafe(|| Array::try_from_iter(ty, vec![deep.clone()]))) else { return Ok(()) };
+        match t {
+            Ok(a) => deep = LhsValue::Array(a),
+            Err(_) => return Ok(()),
+        }
+    }
+    kernel::count("op.build_deep_element");
+    let elem = [Type::Bytes, Type::Int, Type::Array(Type::Bytes.into())][choose(3, "deep.elem")];
+    let ctor = choose(3, "deep.ctor");
+    let class = ["Array::try_from_iter", "Array::try_from_vec", "Map::try_from_iter"][ctor];
+    let d = deep.clone();
+    let r = catch_unwind(AssertUnwindSafe(move || match ctor {
+        0 => Array::try_from_iter(elem, vec![d]).map(LhsValue::Array),
+        1 => Array::try_from_vec(elem, vec![d]).map(LhsValue::Array),
+        _ => Map::try_from_iter::<TypeMismatchError, _>(elem, vec![Ok((b"k".to_vec().into_boxed_slice(), d))]).map(LhsValue::Map),
+    }));
+    match r {
+        Ok(Ok(val)) => Err(v("heterogeneous-container-built", format!("{class}/deep-element"), format!("a 33-level nested array was accepted as an element of a container of {:?}: {:?}", elem, val.get_type()))),
+        _ => Ok(()),
+    }
+}
+
 fn typed_wrappers() -> Result<(), Violation> {
     let mut a: TypedArray<'static, i64> = TypedArray::new();
     a.push(1);
@@ -428,6 +456,9 @@ fn apply_ops(w: &World, mut ctx: ExecutionContext<'static>, mut m: ModelCtx, n: 
             7 => {
                 op_build(w)?;
                 typed_wrappers()?;
+                if chance(1, 6, "build.deep") {
+                    op_build_deep_element()?;
+                }
             }
             // ---- deserialise a document into the context through a faulty transport
             8 => {
